@@ -20,7 +20,7 @@ Ltac split_run H :=
 
 Ltac unfold_layer :=
   unfold handle, resume, start, start_open, start_open_done, start_fail_close, relay_data, relay_data_hooked,
-    relay_closed, close_if_open, end_flow, end_hooked, yield, on_fl in *.
+    relay_closed, close_if_open, end_flow, end_hooked, yield, on_fl, mark_unreadable, set_eof, eof_of in *.
 
 Lemma handle_frame st e st' o : handle st e = (st', o) -> queue st' = queue st /\ cf st' = cf st.
 Proof.
@@ -327,73 +327,3 @@ Proof.
   split; assumption.
 Qed.
 
-(* ---------- T2b: once both peers have closed their sending side and the layer is idle, the flow has ended *)
-Definition is_closed_ev (e : event) : bool := match e with EClosed _ => true | _ => false end.
-Definition I6 st (q : list event) (out : list cmd) : Prop :=
-  crashed st = false -> ph st <> PDone -> can_read (client st) = false -> can_read (server st) = false ->
-  existsb is_closed_ev q = true.
-
-Ltac fin6 :=
-  simpl in *;
-  repeat match goal with
-  | H : negb _ = true |- _ => apply negb_true_iff in H
-  | H : negb _ = false |- _ => apply negb_false_iff in H
-  | H : _ || _ = false |- _ => apply orb_false_iff in H; destruct H
-  | H : _ || _ = true |- _ => apply orb_true_iff in H; destruct H
-  end; simpl in *; try congruence; try discriminate; auto.
-
-Lemma I6_handle st e q out st' o :
-  I6 st (e :: q) out -> waiting st = false -> crashed st = false -> handle st e = (st', o) -> I6 st' q (out ++ o).
-Proof.
-  intros H _ Hc Hh. unfold I6 in *. intros A B C D.
-  unfold handle in Hh.
-  destruct (ph st) eqn:Eph; destruct e as [|f d|f|fc d|a err]; simpl in Hh, H.
-  all: unfold_layer; unfold env_cmd, set_conn in *.
-  all: split_run Hh; inversion Hh; subst; clear Hh; fin6.
-  all: try (apply H; fin6; fail).
-Qed.
-
-Lemma I6_resume st q out a err st' o :
-  wait_ph_ok st ->
-  I6 st q out -> waiting st = true -> crashed st = false -> resume st a err = (st', o) -> I6 st' q (out ++ o).
-Proof.
-  intros Hp H _ Hc Hr. unfold I6 in *. intros A B C D. unfold wait_ph_ok in Hp.
-  unfold resume in Hr. destruct (wait st) eqn:Ew.
-  all: unfold_layer; unfold env_cmd, set_conn in *.
-  all: split_run Hr; inversion Hr; subst; clear Hr; fin6.
-  all: try (apply H; fin6; fail).
-Qed.
-
-Lemma I6_arrive st q out e :
-  not_reply e -> crashed st = false -> I6 st q out -> I6 (env_arrive st e) (q ++ [e]) out.
-Proof.
-  intros _ Hc H. unfold I6 in *. rewrite existsb_app.
-  destruct e as [|f d|f|fc d|a err]; simpl; rewrite ?orb_true_r; auto;
-    intros A B C D; rewrite orb_false_r; apply H; auto.
-Qed.
-
-Definition I26 st q out : Prop := I2 st q out /\ I6 st q out.
-
-Lemma both_closed_ends pol c evs :
-  let '(st, out) := run pol (init c) evs in
-  crashed st = false -> wait st = NoWait -> ph st <> PDone ->
-  can_read (client st) || can_read (server st) = true.
-Proof.
-  destruct (run pol (init c) evs) as [st out] eqn:H.
-  assert (H0 : Inv I26 (init c) []).
-  { split; [|reflexivity]. split.
-    - split; [exact Logic.I|]. unfold ended, has_flow. simpl. rewrite andb_false_r. reflexivity.
-    - unfold I6. simpl. intros _ _ A. discriminate. }
-  assert (HR : Inv I26 st ([] ++ out)).
-  { refine (I_run_u pol I26 _ _ _ (fun _ _ _ _ h => h) evs _ _ _ _ H0 H).
-    - intros s e q ou s' o' [A B] Hw Hc Hh. split; [eapply I2_handle | eapply I6_handle]; eauto.
-    - intros s q ou a err s' o' [A B] Hw Hc Hr. split; [eapply I2_resume | eapply I6_resume]; eauto. apply A.
-    - intros s q ou e He Hc [A B]. split; [apply I2_arrive | apply I6_arrive]; auto. }
-  destruct HR as [[_ HI] HS].
-  intros Hc Hw Hp. unfold I6 in HI.
-  assert (Hq : queue st = []) by (apply HS; [unfold waiting; rewrite Hw; reflexivity | exact Hc]).
-  rewrite Hq in HI. simpl in HI.
-  destruct (can_read (client st)) eqn:E1; [reflexivity|].
-  destruct (can_read (server st)) eqn:E2; [reflexivity|].
-  specialize (HI Hc Hp eq_refl eq_refl). discriminate.
-Qed.
